@@ -83,7 +83,7 @@ Proof. intros s z. unfold ensure_size. destruct (fsize s >=? z); unfold loc; rep
 Lemma loc_stats : forall s n, loc s (stats_update s n).
 Proof. intros s n. unfold stats_update. destruct (crznum s >? FSM_MAX_STATS_COUNT); unfold loc; repeat split. Qed.
 Lemma loc_solid : forall s o n, loc s (solid s o n).
-Proof. intros s o n. apply loc_ensure_size. Qed.
+Proof. intros s o n. unfold solid. destruct (ensure_ok s (solid_sz s o n)); [apply loc_ensure_size|apply loc_refl]. Qed.
 
 Lemma loc_fold_put : forall R a, loc a (fold_left (fun a r => put_fbk a (fst r) (snd r)) R a).
 Proof.
@@ -157,6 +157,7 @@ Proof.
     [left; split; [apply loc_refl|vm_compute; discriminate]|].
   destruct (nbmlen <? bmlen s); [left; split; [apply loc_refl|vm_compute; discriminate]|].
   destruct (nbmlen * 8 <? shr (nbmoff + nbmlen) (bpow s) + 1); [left; split; [apply loc_refl|vm_compute; discriminate]|].
+  destruct (negb (ensure_ok s (nbmoff + nbmlen))); [left; split; [apply loc_refl|vm_compute; discriminate]|].
   destruct (negb (bmlen s =? 0) && negb (IW_RANGES_OVERLAP (bmoff s) (bmoff s + bmlen s) nbmoff (nbmoff + nbmlen) =? 0));
     [left; split; [apply loc_ensure_size|vm_compute; discriminate]|].
   set (nbm := if negb (bmlen s =? 0) then bm s ++ repeat false (Z.to_nat (8 * (nbmlen - bmlen s)))
@@ -191,7 +192,10 @@ Proof.
             else if rc =? IWFS_ERROR_NO_FREE_SPACE
                  then (IW_ROUNDUP (bmlen s * pow2 (bpow s) * 8) (aunit s), IW_ROUNDUP size (aunit s))
                  else (0, IW_ROUNDUP size (aunit s))) as [nbmoff nbmlen'].
-  eapply hk_trans; [left; exact H1|apply hk_init_lw].
+  eapply hk_trans; [left; exact H1|].
+  pose proof (hk_init_lw s1 nbmoff nbmlen') as H2. destruct (init_lw s1 nbmoff nbmlen') as [rc2 s2]. simpl in H2.
+  destruct (fx_leak (vr s) && negb (rc2 =? 0) && (rc =? 0)); [|exact H2].
+  simpl. eapply hk_trans; [exact H2|left; apply loc_blk_deallocate].
 Qed.
 
 (* ---------------------------------------------------------------- _fsm_blk_allocate_lw: both retry loops *)
@@ -209,6 +213,7 @@ Lemma blk_allocate_na_unfold' : forall fuel s length_blk offset_blk opts ovr,
     let '(rc, s3) := set_bit_status s2 noff olen true false (strict s) in
     let s4 := if (rc =? 0) && negb (has opts IWFSM_ALLOC_NO_STATS) then stats_update s3 length_blk else s3 in
     let s5 := if (rc =? 0) && has opts IWFSM_SOLID_ALLOCATED_SPACE then solid s4 noff olen else s4 in
+    let rc := if (rc =? 0) && has opts IWFSM_SOLID_ALLOCATED_SPACE then solid_rc s4 noff olen else rc in
     let rc' := if (rc =? 0) && has opts IWFSM_SYNC_BMAP && mmap_all (vr s) && negb (fx_sync (vr s))
                then IWFS_ERROR_NOT_MMAPED else rc in
     (rc', s5, noff, olen)
@@ -233,7 +238,7 @@ Lemma blk_allocate_al_unfold' : forall fuel s length_blk opts,
     | S f => let '(rc2, s2) := resize_fsm_bitmap s1 (shl (bmlen s1) 1) in
              if negb (rc2 =? 0) then (rc2, s2, off, olen) else blk_allocate_al f s2 length_blk opts
     end
-  else if (rc =? 0) && has opts IWFSM_SOLID_ALLOCATED_SPACE then (rc, solid s1 off olen, off, olen)
+  else if (rc =? 0) && has opts IWFSM_SOLID_ALLOCATED_SPACE then (solid_rc s1 off olen, solid s1 off olen, off, olen)
   else (rc, s1, off, olen).
 Proof. intros fuel; destruct fuel; reflexivity. Qed.
 
@@ -301,7 +306,8 @@ Qed.
 Lemma hk_blk_allocate : forall s length_blk offset_blk opts ovr,
   hk s (state_of (blk_allocate s length_blk offset_blk opts ovr)).
 Proof.
-  intros. unfold blk_allocate. destruct (has opts IWFSM_ALLOC_PAGE_ALIGNED);
+  intros. unfold blk_allocate. destruct (fx_hint (vr s) && (length_blk >? FSM_BKEY_MAX)); [apply hk_refl|].
+  destruct (has opts IWFSM_ALLOC_PAGE_ALIGNED);
     [apply hk_blk_allocate_al|apply hk_blk_allocate_na].
 Qed.
 
@@ -331,8 +337,8 @@ Qed.
 Lemma hk_allocate : forall s len addr opts ovr, hk s (state_of (allocate s len addr opts ovr)).
 Proof.
   intros s len addr opts ovr. unfold allocate. destruct (len <=? 0); [apply hk_refl|].
-  pose proof (hk_blk_allocate s (shr (IW_ROUNDUP len (pow2 (bpow s))) (bpow s)) (shr addr (bpow s)) opts ovr) as H.
-  destruct (blk_allocate s (shr (IW_ROUNDUP len (pow2 (bpow s))) (bpow s)) (shr addr (bpow s)) opts ovr) as [[[rc s1] off] nlen].
+  pose proof (hk_blk_allocate s (shr (IW_ROUNDUP len (pow2 (bpow s))) (bpow s)) (blk_of s addr) opts ovr) as H.
+  destruct (blk_allocate s (shr (IW_ROUNDUP len (pow2 (bpow s))) (bpow s)) (blk_of s addr) opts ovr) as [[[rc s1] off] nlen].
   simpl in H. destruct (rc =? 0); exact H.
 Qed.
 
@@ -340,8 +346,8 @@ Lemma hk_deallocate : forall s addr len, hk s (snd (deallocate s addr len)).
 Proof.
   intros s addr len. unfold deallocate.
   destruct (negb (Z.land addr (blkmask s) =? 0)); [apply hk_refl|].
-  destruct (fx_short (vr s) && (shr len (bpow s) <? 1)); [apply hk_refl|].
-  destruct (touches_meta s (shr addr (bpow s)) (shr len (bpow s))); [apply hk_refl|].
+  destruct (fx_short (vr s) && (blk_of s len <? 1)); [apply hk_refl|].
+  destruct (touches_meta s (blk_of s addr) (blk_of s len)); [apply hk_refl|].
   left. apply loc_blk_deallocate.
 Qed.
 
@@ -349,15 +355,18 @@ Lemma hk_reallocate : forall s nlen addr olen opts ovr, hk s (state_of (realloca
 Proof.
   intros s nlen addr olen opts ovr. unfold reallocate.
   destruct (negb (Z.land addr (blkmask s) =? 0) || negb (Z.land olen (blkmask s) =? 0)); [apply hk_refl|].
-  set (nb := shr (IW_ROUNDUP nlen (pow2 (bpow s))) (bpow s)). set (ob := shr olen (bpow s)). set (ab := shr addr (bpow s)).
+  set (nb := shr (IW_ROUNDUP nlen (pow2 (bpow s))) (bpow s)). set (ob := blk_of s olen). set (ab := blk_of s addr).
   destruct (nb =? ob); [apply hk_refl|].
+  destruct (fx_realloc (vr s) && (ob <? 1)); [apply hk_refl|].
+  destruct (fx_realloc (vr s) && touches_meta s ab ob); [apply hk_refl|].
   destruct (nb <? ob).
   - pose proof (loc_blk_deallocate s (ab + nb) (ob - nb)) as H.
     destruct (blk_deallocate s (ab + nb) (ob - nb)) as [rc s1]. simpl in H. destruct (rc =? 0); left; exact H.
   - pose proof (hk_blk_allocate s nb ab opts ovr) as H.
     destruct (blk_allocate s nb ab opts ovr) as [[[rc s1] naddr] sp]. simpl in H.
     destruct (negb (rc =? 0)); [exact H|].
-    set (s1' := if negb (naddr =? ab) then ensure_size s1 (shl naddr (bpow s) + olen) else s1).
+    destruct (negb (naddr =? ab) && negb (ensure_ok s1 (shl naddr (bpow s) + uw 64 olen))); [exact H|].
+    set (s1' := if negb (naddr =? ab) then ensure_size s1 (shl naddr (bpow s) + uw 64 olen) else s1).
     assert (H1 : hk s s1').
     { eapply hk_trans; [exact H|]. left. unfold s1'. destruct (negb (naddr =? ab)); [apply loc_ensure_size|apply loc_refl]. }
     pose proof (loc_blk_deallocate s1' ab ob) as H2.
